@@ -182,12 +182,14 @@ func (d *OrderedDaemon) runBackgroundWorker(name string, backgroundWorker Worker
 // Use order to define in which shutdown order this particular
 // background worker is shut down (higher = earlier).
 func (d *OrderedDaemon) BackgroundWorker(name string, handler WorkerFunc, order ...int) error {
+	d.lock.Lock()
+	defer d.lock.Unlock()
+
+	// has to be checked under the lock (shutdown sets the flag under the lock): a worker that is registered while
+	// the shutdown is already running would neither be cancelled nor awaited.
 	if d.IsStopped() {
 		return ErrDaemonAlreadyStopped
 	}
-
-	d.lock.Lock()
-	defer d.lock.Unlock()
 
 	exWorker, workerExistsAlready := d.workers[name]
 	if workerExistsAlready {
@@ -245,13 +247,13 @@ func (d *OrderedDaemon) DebugLogger(logger log.Logger) {
 
 // Start starts the daemon.
 func (d *OrderedDaemon) Start() {
-	// do not allow restarts
+	d.lock.Lock()
+	defer d.lock.Unlock()
+
+	// do not allow restarts (checked under the lock, see BackgroundWorker)
 	if d.IsStopped() {
 		return
 	}
-
-	d.lock.Lock()
-	defer d.lock.Unlock()
 
 	if !d.IsRunning() {
 		d.running.Store(true)
@@ -298,7 +300,12 @@ func (d *OrderedDaemon) shutdown() {
 		d.logger.LogDebugf("Shutting down ...")
 	}
 
+	// the flag is set under the lock: BackgroundWorker and Start calls that are already registering or starting
+	// workers finish first (and their workers are part of the shutdown), later ones see the flag.
+	d.lock.Lock()
 	d.stopped.Store(true)
+	d.lock.Unlock()
+
 	d.stoppedCtxCancel()
 	if !d.IsRunning() {
 		return
